@@ -441,6 +441,152 @@ def takeIpFamilies (v : Bytes) : Option (Option Claim × Option Claim) :=
     | some (none, none) => none
     | r => r
 
+/-- `take_basic_constraints_critical` -/
+def xBasicConstraints (e : Exts) (critical : Bool) (v : Bytes) : Option Exts :=
+  if !critical ∨ e.basicCa.isSome then none
+  else match takeCons tagSeq v with
+    | none => none
+    | some (bc, _) =>
+      match takeOptBool bc with
+      | .bad => none
+      | .absent => if bc = [] then some { e with basicCa := some false } else none
+      | .ok x r => if r = [] then some { e with basicCa := some x } else none
+
+/-- `take_subject_key_identifier_critical` -/
+def xSubjectKeyId (e : Exts) (critical : Bool) (v : Bytes) : Option Exts :=
+  if critical ∨ e.ski.isSome then none
+  else match takePrim tagOctetString v with
+    | some (k, _) => if keyIdOk k then some { e with ski := some k } else none
+    | none => none
+
+/-- `take_authority_key_identifier_critical` -/
+def xAuthorityKeyId (e : Exts) (critical : Bool) (v : Bytes) : Option Exts :=
+  if critical ∨ e.aki.isSome then none
+  else match takeCons tagSeq v with
+    | none => none
+    | some (ac, _) =>
+      match takePrim 0x80 ac with
+      | some (k, r) => if keyIdOk k ∧ r = [] then some { e with aki := some k } else none
+      | none => none
+
+/-- `take_key_usage_critical` -/
+def xKeyUsage (e : Exts) (critical : Bool) (v : Bytes) : Option Exts :=
+  if !critical ∨ e.keyUsage.isSome then none
+  else match takeBitString v with
+    | none => none
+    | some (u, bits, _) =>
+      let bitLen := 8 * bits.length - u
+      if bitLen = 7 ∧ bits.headD 0 = 6 then some { e with keyUsage := some .ca }
+      else if bitLen = 1 ∧ bits.headD 0 / 128 % 2 = 1 then some { e with keyUsage := some .ee }
+      else none
+
+/-- `take_extended_key_usage_critical` -/
+def xExtKeyUsage (e : Exts) (critical : Bool) (v : Bytes) : Option Exts :=
+  if critical ∨ e.eku.isSome then none
+  else match takeCons tagSeq v with
+    | none => none
+    | some (kc, _) =>
+      if kc = [] then none
+      else match foldPrim tagOid (fun s o => if oidOk o then some (s || o == oidKpBgpsecRouter) else none) kc.length kc false with
+        | some has => some { e with eku := some has }
+        | none => none
+
+/-- `take_crl_distribution_points` -/
+def xCrlDistributionPoints (e : Exts) (critical : Bool) (v : Bytes) : Option Exts :=
+  if e.crlUri.isSome ∨ critical then none
+  else match takeCons tagSeq v with
+    | none => none
+    | some (c1, _) =>
+      match takeCons tagSeq c1 with
+      | none => none
+      | some (c2, r) =>
+        if r ≠ [] then none else
+        match takeCons 0xA0 c2 with
+        | none => none
+        | some (c3, r) =>
+          if r ≠ [] then none else
+          match takeCons 0xA0 c3 with
+          | none => none
+          | some (c4, r) =>
+            if r ≠ [] then none else
+            match generalNames rsyncOk c4 with
+            | some u => some { e with crlUri := some u }
+            | none => none
+
+/-- `take_authority_info_access` -/
+def xAuthorityInfoAccess (e : Exts) (critical : Bool) (v : Bytes) : Option Exts :=
+  if e.caIssuer.isSome ∨ critical then none
+  else match takeCons tagSeq v with
+    | none => none
+    | some (c1, _) =>
+      match takeCons tagSeq c1 with
+      | none => none
+      | some (c2, r) =>
+        if r ≠ [] then none else
+        match takePrim tagOid c2 with
+        | none => none
+        | some (o, r) =>
+          if o ≠ oidAdCaIssuers then none
+          else match generalNames rsyncOk r with
+            | some u => some { e with caIssuer := some u }
+            | none => none
+
+/-- `take_subject_info_access_critical` -/
+def xSubjectInfoAccess (e : Exts) (critical : Bool) (v : Bytes) : Option Exts :=
+  if critical ∨ e.sia.isSome then none
+  else match takeSia v with
+    | some s => some { e with sia := some s }
+    | none => none
+
+/-- `take_certificate_policies` -/
+def xCertificatePolicies (e : Exts) (critical : Bool) (v : Bytes) : Option Exts :=
+  if e.overclaim.isSome ∨ !critical then none
+  else match takeCons tagSeq v with
+    | none => none
+    | some (c1, _) =>
+      match takeCons tagSeq c1 with
+      | none => none
+      | some (c2, r) =>
+        if r ≠ [] then none else
+        match takeOid c2 with
+        | none => none
+        | some (o, q) =>
+          let oc : Option Bool := if o = oidCpResources then some false
+            else if o = oidCpResourcesV2 then some true else none
+          match oc with
+          | none => none
+          | some t => if skipAll q.length q then some { e with overclaim := some t } else none
+
+/-- `take_ip_resources`, entered for either of the two identifiers -/
+def xIpResources (e : Exts) (v2 : Bool) (v : Bytes) : Option Exts :=
+  if e.ip.isSome then none
+  else match takeIpFamilies v with
+    | some f => some { e with ipTrim := some v2, ip := some f }
+    | none => none
+
+/-- `take_as_resources` -/
+def xAsResources (e : Exts) (v2 : Bool) (v : Bytes) : Option Exts :=
+  if e.asn.isSome then none
+  else match AsDer.decodeExt v with
+    | some a => some { e with asTrim := some v2, asn := some a }
+    | none => none
+
+/-- the dispatch on the extension identifier inside `TbsCert::from_constructed` -/
+def extValue (e : Exts) (id : Bytes) (critical : Bool) (v : Bytes) : Option Exts :=
+  if id = oidBasicConstraints then xBasicConstraints e critical v
+  else if id = oidSubjectKeyId then xSubjectKeyId e critical v
+  else if id = oidAuthorityKeyId then xAuthorityKeyId e critical v
+  else if id = oidKeyUsage then xKeyUsage e critical v
+  else if id = oidExtKeyUsage then xExtKeyUsage e critical v
+  else if id = oidCrlDistributionPoints then xCrlDistributionPoints e critical v
+  else if id = oidAuthorityInfoAccess then xAuthorityInfoAccess e critical v
+  else if id = oidSubjectInfoAccess then xSubjectInfoAccess e critical v
+  else if id = oidCertificatePolicies then xCertificatePolicies e critical v
+  else if id = oidIpAddrBlock ∨ id = oidIpAddrBlockV2 then xIpResources e (id == oidIpAddrBlockV2) v
+  else if id = oidAsIds ∨ id = oidAsIdsV2 then xAsResources e (id == oidAsIdsV2) v
+  else if critical then none
+  else some e
+
 /-- one extension: identifier, criticality, value octets -/
 def extension (e : Exts) (c : Bytes) : Option Exts :=
   match takeOid c with
@@ -453,112 +599,7 @@ def extension (e : Exts) (c : Bytes) : Option Exts :=
     | some (critical, r1) =>
       match takePrim tagOctetString r1 with
       | none => none
-      | some (v, r2) =>
-        if r2 ≠ [] then none
-        else if id = oidBasicConstraints then
-          if !critical ∨ e.basicCa.isSome then none
-          else match takeCons tagSeq v with
-            | none => none
-            | some (bc, _) =>
-              match takeOptBool bc with
-              | .bad => none
-              | .absent => if bc = [] then some { e with basicCa := some false } else none
-              | .ok x r => if r = [] then some { e with basicCa := some x } else none
-        else if id = oidSubjectKeyId then
-          if critical ∨ e.ski.isSome then none
-          else match takePrim tagOctetString v with
-            | some (k, _) => if keyIdOk k then some { e with ski := some k } else none
-            | none => none
-        else if id = oidAuthorityKeyId then
-          if critical ∨ e.aki.isSome then none
-          else match takeCons tagSeq v with
-            | none => none
-            | some (ac, _) =>
-              match takePrim 0x80 ac with
-              | some (k, r) => if keyIdOk k ∧ r = [] then some { e with aki := some k } else none
-              | none => none
-        else if id = oidKeyUsage then
-          if !critical ∨ e.keyUsage.isSome then none
-          else match takeBitString v with
-            | none => none
-            | some (u, bits, _) =>
-              let bitLen := 8 * bits.length - u
-              if bitLen = 7 ∧ bits.headD 0 = 6 then some { e with keyUsage := some .ca }
-              else if bitLen = 1 ∧ bits.headD 0 / 128 % 2 = 1 then some { e with keyUsage := some .ee }
-              else none
-        else if id = oidExtKeyUsage then
-          if critical ∨ e.eku.isSome then none
-          else match takeCons tagSeq v with
-            | none => none
-            | some (kc, _) =>
-              if kc = [] then none
-              else match foldPrim tagOid (fun s o => if oidOk o then some (s || o == oidKpBgpsecRouter) else none) kc.length kc false with
-                | some has => some { e with eku := some has }
-                | none => none
-        else if id = oidCrlDistributionPoints then
-          if e.crlUri.isSome ∨ critical then none
-          else match takeCons tagSeq v with
-            | none => none
-            | some (c1, _) =>
-              match takeCons tagSeq c1 with
-              | none => none
-              | some (c2, r) =>
-                if r ≠ [] then none else
-                match takeCons 0xA0 c2 with
-                | none => none
-                | some (c3, r) =>
-                  if r ≠ [] then none else
-                  match takeCons 0xA0 c3 with
-                  | none => none
-                  | some (c4, r) =>
-                    if r ≠ [] then none else
-                    match generalNames rsyncOk c4 with
-                    | some u => some { e with crlUri := some u }
-                    | none => none
-        else if id = oidAuthorityInfoAccess then
-          if e.caIssuer.isSome ∨ critical then none
-          else match takeCons tagSeq v with
-            | none => none
-            | some (c1, _) =>
-              match takeCons tagSeq c1 with
-              | none => none
-              | some (c2, r) =>
-                if r ≠ [] then none else
-                match takePrim tagOid c2 with
-                | none => none
-                | some (o, r) =>
-                  if o ≠ oidAdCaIssuers then none
-                  else match generalNames rsyncOk r with
-                    | some u => some { e with caIssuer := some u }
-                    | none => none
-        else if id = oidSubjectInfoAccess then
-          if critical ∨ e.sia.isSome then none
-          else (takeSia v).map fun s => { e with sia := some s }
-        else if id = oidCertificatePolicies then
-          if e.overclaim.isSome ∨ !critical then none
-          else match takeCons tagSeq v with
-            | none => none
-            | some (c1, _) =>
-              match takeCons tagSeq c1 with
-              | none => none
-              | some (c2, r) =>
-                if r ≠ [] then none else
-                match takeOid c2 with
-                | none => none
-                | some (o, q) =>
-                  let oc : Option Bool := if o = oidCpResources then some false
-                    else if o = oidCpResourcesV2 then some true else none
-                  match oc with
-                  | none => none
-                  | some t => if skipAll q.length q then some { e with overclaim := some t } else none
-        else if id = oidIpAddrBlock ∨ id = oidIpAddrBlockV2 then
-          if e.ip.isSome then none
-          else (takeIpFamilies v).map fun f => { e with ipTrim := some (id == oidIpAddrBlockV2), ip := some f }
-        else if id = oidAsIds ∨ id = oidAsIdsV2 then
-          if e.asn.isSome then none
-          else (AsDer.decodeExt v).map fun a => { e with asTrim := some (id == oidAsIdsV2), asn := some a }
-        else if critical then none
-        else some e
+      | some (v, r2) => if r2 ≠ [] then none else extValue e id critical v
 
 /-! ## the certificate -/
 
@@ -673,9 +714,11 @@ def decodeCert (b : Bytes) : Option Decoded :=
 def keyIdentifier (d : Decoded) : Bytes := Sha.sha1N d.keyBits
 
 /-- IPv4 blocks are kept as 128-bit ranges whose upper 32 bits carry the address (as `Addr` does); the
-validation model counts IPv4 in 32 bits -/
+validation model counts IPv4 in 32 bits.  The blocks are moved down and collected again: for the aligned
+blocks the IPv4 reader produces this changes nothing (the comparison with the library, whose result the
+harness shifts block by block, checks it on every case), and it makes the result canonical by construction. -/
 def shiftV4 : Claim → Claim
-  | .blocks c => .blocks (c.map fun b => ⟨b.lo / 2 ^ 96, b.hi / 2 ^ 96⟩)
+  | .blocks c => .blocks (fromIter (2 ^ 32 - 1) (c.map fun b => ⟨b.lo / 2 ^ 96, b.hi / 2 ^ 96⟩))
   | x => x
 
 /-- the record `Cert.validate*` works on; `sigOk` is the one input that does not come from the octets.
